@@ -20,11 +20,13 @@ RULE = (
     "compared with a reference visibility model computed from the DAG and the ledger (foreign tags, missing keys, "
     "path-ordered nearest producer of the current iteration, list multiset). case B = fan-in with output_reducers, all "
     "permutations of branch completion order (<=4 branches) + random value multisets fed to apply_output_reducers in every "
-    "order. Non-trivial = execution with >=1 ancestor-produced key; distinct = (stage depth, #producers of the key, "
+    "order; and the StartStage of a reducer join, pushed by the branch that finished first, handled while a second worker "
+    "takes the last branch through its final RunTask / CompleteTask / CompleteStage at every statement boundary. "
+    "Non-trivial = execution with >=1 ancestor-produced key; distinct = (stage depth, #producers of the key, "
     "path-ordered?, iteration>0, own-context shadow)."
 )
 ASSUMPTIONS = ["SQLite backend", "only path-ordered scalar keys are asserted by value; for unordered producers membership in the candidate set"]
-MIN_OBS = {"keys_checked": {"quick": 3000, "thorough": 50000}, "later_iteration_executions": {"quick": 50, "thorough": 500}, "reducer_orders": {"quick": 200, "thorough": 3000}, "interleaved_runs": {"quick": 60, "thorough": 800}, "reducer_iterations_checked": {"quick": 20, "thorough": 150}, "plan_x_signal_schedules_with_switch": {"quick": 100, "thorough": 1500}}
+MIN_OBS = {"keys_checked": {"quick": 3000, "thorough": 50000}, "later_iteration_executions": {"quick": 50, "thorough": 500}, "reducer_orders": {"quick": 200, "thorough": 3000}, "interleaved_runs": {"quick": 60, "thorough": 800}, "reducer_iterations_checked": {"quick": 20, "thorough": 150}, "plan_x_signal_schedules_with_switch": {"quick": 100, "thorough": 1500}, "plan_x_last_branch_schedules_with_switch": {"quick": 40, "thorough": 40}}
 TIMEOUT = {"quick": 600, "thorough": 3000}
 
 SCALARS = ["k1", "k2", "k3"]
@@ -111,7 +113,8 @@ def gen_cases(tier: str, seed: int) -> list[dict]:
     nred = 12 if tier == "quick" else 80
     cases += [{"kind": "reducers", "i": i, "seed": seed} for i in range(nred)]
     cases += [{"kind": "race", "spec_i": i, "seed": seed} for i in range(80 if tier == "quick" else 1000)]
-    cases += [{"kind": "pair", "variant": v, "seed": seed, "sample": 80 if tier == "quick" else 1200} for v in range(3)]
+    cases += [{"kind": "pair", "variant": v, "seed": seed, "sample": 80 if tier == "quick" else 1200} for v in range(4)]
+    cases += [{"kind": "pair", "variant": 3, "seed": seed + 1, "sample": 80 if tier == "quick" else 1200}]
     return cases
 
 
@@ -391,6 +394,8 @@ def _pair(case: dict) -> dict:
     from ..world import World
 
     variant = case["variant"]
+    if variant == 3:
+        return _pair_reduce_vs_last_branch(case)
     if variant == 2:
         stages = [specs.st("r"), specs.st("u0", ["r"], [{"kind": "ok", "raw": {"score": 4}}]), specs.st("u1", ["r"], [{"kind": "ok", "raw": {"score": 7}}]), specs.st("b", ["u0", "u1"], [dict(specs.OK, out=["b_o"])], reducers={"score": "sum"}, ctx={"score": 0})]
     else:
@@ -457,6 +462,107 @@ def _pair(case: dict) -> dict:
                 for x in v:
                     x["schedule"] = sc
                 out += v
+    finally:
+        os.unlink(db)
+    seen = set()
+    uniq = []
+    for x in out:
+        if x["sig"] not in seen:
+            seen.add(x["sig"])
+            x["spec"] = spec["name"]
+            uniq.append(x)
+    return {"violations": uniq, "obs": dict(obs), "keys": sorted(keys)}
+
+
+def _pair_reduce_vs_last_branch(case: dict) -> dict:
+    """AND join with reducers: the StartStage(join) pushed by the branch that finished first, handled by W0, while a
+    second worker takes the LAST branch through its final RunTask, CompleteTask and CompleteStage - at every
+    statement boundary of W0's handling.  Where the join is loaded before the last branch produced its outputs but
+    judged ready afterwards, the reducers must still see every branch."""
+    import json as _json
+    import os
+
+    from .. import interleave as il
+    from ..world import PAST, World
+
+    both = bool(case["seed"] % 2)
+    stages = [specs.st("r"), specs.st("u0", ["r"], [{"kind": "ok", "raw": {"score": 4, "tags": ["x"]}}]), specs.st("u1", ["r"], [dict(specs.OK), {"kind": "ok", "raw": {"score": 7, "tags": ["y"]}}]), specs.st("b", ["u0", "u1"], [dict(specs.OK, out=["b_o"])], reducers={"score": "sum", "tags": "collect"} if both else {"score": "sum"}, ctx={"score": 0})]
+    spec = {"name": "pairvis3", "confluent": True, "stages": stages}
+    w = World()
+    cut = None
+    try:
+        w.submit(spec)
+        for _ in range(200):
+            rows = w.rows()
+            if not rows:
+                break
+            st = w.snapshot_state()["stages"]
+            bid, u1id = st["b"]["id"], st["u1"]["id"]
+            ss = [r for r in rows if r["type"] == "StartStage" and _json.loads(r["payload"]).get("stage_id") == bid]
+            last = [r for r in rows if r["type"] == "RunTask" and _json.loads(r["payload"]).get("stage_id") == u1id and st["u1"]["tasks"][0][1] == "SUCCEEDED"]
+            others = [r for r in w.eligible(rows) if r not in ss and r not in last]
+            if ss and last and not others:
+                path = os.path.join(il.env.scratch_dir(), f"cut-{os.getpid()}-{random.randrange(1 << 40)}.db")
+                w.store._get_connection().commit()
+                w.copy_db(path)
+                cut = (path, ss[0]["id"], u1id)
+                break
+            if not others:
+                break
+            w.deliver(others[0]["id"])
+    finally:
+        w.close()
+    obs: Counter = Counter()
+    keys: set = set()
+    out: list[dict] = []
+    if cut is None:
+        return {"violations": [], "obs": {"cut_point_not_reached": 1}, "keys": []}
+    db, row, u1id = cut
+    FAR_ = "2999-01-01T00:00:00+00:00"
+
+    def mk(world):
+        def body() -> None:
+            c = world.queue._get_connection()
+            for _ in range(4):
+                try:
+                    c.execute("UPDATE queue_messages SET locked_until = ? WHERE locked_until IS NULL AND (json_extract(payload, '$.stage_id') != ? OR message_type = 'StartStage')", (FAR_, u1id))
+                    c.execute("UPDATE queue_messages SET deliver_at = ? WHERE json_extract(payload, '$.stage_id') = ? AND message_type != 'StartStage'", (PAST, u1id))
+                    c.commit()
+                    msg = world.queue.poll_one()
+                finally:
+                    try:
+                        c.execute("UPDATE queue_messages SET locked_until = NULL WHERE locked_until = ?", (FAR_,))
+                        c.commit()
+                    except Exception:
+                        c.rollback()
+                if msg is None:
+                    break
+                il.worker_body(world, msg)()
+
+        return body
+
+    try:
+        na = il.solo_length(db, row)
+        for s1 in range(0, na + 3):
+            run, info = il.run_pair(db, [row], il.Segments([("W0", s1), ("W9", 10**6), ("W0", 10**6)]), extra_bodies={"W9": mk})
+            obs["evaluations"] += 1
+            if run is None:
+                obs["scheduler_watchdog"] += 1
+                continue
+            obs["plan_x_last_branch_schedules_with_switch"] += 1
+            keys.add(f"pair:3:{both}:{s1}")
+            recs = [r for r in run.ledger if r["ref"] == "b"]
+            if not recs:
+                out.append(viol("C16/stage-did-not-run", f"b never executed ({run.state['wf']}); W0 preempted after {s1}/{na} statements"))
+                continue
+            obs["keys_checked"] += 1
+            got = recs[0]["ctx"].get("score")
+            if got != 11:
+                out.append(viol("C16/reducer-result-wrong:last-branch-finished-while-the-join-was-being-started", f"sum over [4, 7]: join saw {got}; StartStage(join) preempted after {s1}/{na} statements, meanwhile the last branch ran to completion"))
+            if both:
+                tags = recs[0]["ctx"].get("tags")
+                if sorted(tags or []) != ["x", "y"]:
+                    out.append(viol("C16/reducer-result-wrong:last-branch-finished-while-the-join-was-being-started", f"collect over ['x'], ['y']: join saw {tags}; W0 preempted after {s1}/{na} statements"))
     finally:
         os.unlink(db)
     seen = set()
